@@ -51,7 +51,8 @@ cdb_unpack(const char *buf)
  * @retval NULL no key found in database or error
  *
  * If the function returns NULL and errno is 0 everything worked fine
- * but there is no entry for key in the file. On error errno is set.
+ * but there is no entry for key in the file. On error errno is set,
+ * a file that is no valid constant database gives EINVAL.
  *
  * The file is mmaped into memory, the result pointer will point inside that
  * memory. The caller must munmap() the value returned in mm if the function
@@ -82,6 +83,14 @@ cdb_seekmm(int fd, const char *key, unsigned int len, char **mm, const struct st
 		return NULL;
 	}
 
+	/* Do not trust the contents of the file: every position and length
+	 * read from it is checked against the size of the mapping. */
+	const uint64_t size = st->st_size;
+
+	/* the 256 hash table pointers must be there */
+	if (size < 256 * 8)
+		goto corrupt;
+
 	errno = 0;
 	uint32_t h = cdb_hash(key, len);
 
@@ -93,19 +102,34 @@ cdb_seekmm(int fd, const char *key, unsigned int len, char **mm, const struct st
 
 		pos = cdb_unpack(*mm + pos);
 
+		/* the whole hash table must be inside the file */
+		if ((pos > size) || (lenhash > (size - pos) / 8))
+			goto corrupt;
+
 		for (uint32_t loop = 0; loop < lenhash; ++loop) {
-			char *cur = *mm + pos + 8 * h2;
+			char *cur = *mm + pos + 8 * (uint64_t)h2;
 			uint32_t poskd = cdb_unpack(cur + 4);
 
 			if (!poskd)
 				break;
 
 			if (cdb_unpack(cur) == h) {
+				/* the record header must be inside the file */
+				if ((poskd > size) || (size - poskd < 8))
+					goto corrupt;
+
 				cur = *mm + poskd;
 
-				if (cdb_unpack(cur) == len)
+				if (cdb_unpack(cur) == len) {
+					const uint32_t dlen = cdb_unpack(cur + 4);
+
+					/* as well as the key and the data */
+					if ((size - poskd - 8 < len) || (size - poskd - 8 - len < dlen))
+						goto corrupt;
+
 					if (!strncmp(cur + 8, key, len))
 						return cur + 8 + len;
+				}
 			}
 			if (++h2 == lenhash)
 				h2 = 0;
@@ -115,5 +139,9 @@ cdb_seekmm(int fd, const char *key, unsigned int len, char **mm, const struct st
 	err = errno;
 	munmap(*mm, st->st_size);
 	errno = err;
+	return NULL;
+corrupt:
+	munmap(*mm, st->st_size);
+	errno = EINVAL;
 	return NULL;
 }
